@@ -163,7 +163,9 @@ def run(ctx):
     for b in BACKENDS:
         for vt in VTYPES[1:]:
             items.append(('update', b, ('set2', 'where'), vt))
-            if not quick: items.append(('insert', b, ('rows', 'cols', 'conflict'), vt)); items.append(('select', b, ('valitem', 'w1', 'order', 'limit'), vt))
+            if not quick:
+                # text-like payloads fork in the escaping loops: one row for them (two rows x two columns did not finish within the thorough budget)
+                items.append(('insert', b, ('cols', 'conflict') if vt in ('String', 'Char', 'Bytes') else ('rows', 'cols', 'conflict'), vt)); items.append(('select', b, ('valitem', 'w1', 'order', 'limit'), vt))
     ctx.bounds = {'families': sorted(set('%s: optional clauses %s, value type %s' % (i[0], list(i[2]), i[3]) for i in items if i[1] == 'mysql')),
                   'value_types': VTYPES, 'payloads': 'symbolic: full-width integers, one arbitrary non-NUL char (String of 2, Char), one arbitrary byte (Bytes of 2), Bool; NULL',
                   'entry_points': sqstmt.ENTRIES, 'backends': list(BACKENDS)}
